@@ -45,6 +45,9 @@ func timestampToTime(v int64, ts *arrow.TimestampType) time.Time {
 
 func setTimeField(field reflect.Value, fieldType reflect.Type, isPtr bool, val time.Time) {
 	v := reflect.ValueOf(val)
+	if v.Type() != fieldType && v.Type().ConvertibleTo(fieldType) {
+		v = v.Convert(fieldType) // named time type
+	}
 	if isPtr {
 		ptr := reflect.New(fieldType)
 		ptr.Elem().Set(v)
@@ -56,6 +59,9 @@ func setTimeField(field reflect.Value, fieldType reflect.Type, isPtr bool, val t
 
 func setDurationField(field reflect.Value, fieldType reflect.Type, isPtr bool, val time.Duration) {
 	v := reflect.ValueOf(val)
+	if v.Type() != fieldType && v.Type().ConvertibleTo(fieldType) {
+		v = v.Convert(fieldType) // named duration type
+	}
 	if isPtr {
 		ptr := reflect.New(fieldType)
 		ptr.Elem().Set(v)
